@@ -74,6 +74,11 @@ class ExcInfo:
     __slots__ = ('obj', 'tname', 'dtor')
     def __init__(s, obj, tname, dtor=None): s.obj, s.tname, s.dtor = obj, tname, dtor
 
+def copy_env(v):
+    if isinstance(v, dict): return {k: copy_env(x) for k, x in v.items()}
+    if isinstance(v, list): return [copy_env(x) for x in v]
+    if hasattr(v, 'clone'): return v.clone()
+    return v
 UID = [0]
 def new_uid():
     UID[0] += 1; return UID[0]
@@ -96,7 +101,7 @@ class State:
         n.frames = fr2
         n.pc = list(s.pc); n.model = s.model; n.exc = s.exc; n.caught = list(s.caught); n.steps = s.steps
         n.log = list(s.log); n.inputs = list(s.inputs); n.conc = dict(s.conc); n.subst = list(s.subst); n.decisions = dict(s.decisions); n.nsym = s.nsym
-        n.env = {k: (v.clone() if hasattr(v, 'clone') else (dict(v) if isinstance(v, dict) else (list(v) if isinstance(v, list) else v))) for k, v in s.env.items()}
+        n.env = copy_env(s.env)
         return n
     # ---- objects
     def alloc(s, size, kind, name=''):
@@ -377,6 +382,7 @@ class Engine:
             r = 0
             for i, b in enumerate(bs): r |= b << (8 * i)
             return r
+        if n == 1: return bs[0]
         return simp(z3.Concat(*[bv(b, 8) for b in reversed(bs)]))
     def load(s, st, p, n, what='load'):
         o = s.obj_of(st, p, what)
@@ -589,10 +595,11 @@ class Engine:
 
     def binop(s, st, op, nsw, bits, a, b):
         ca, cb = a.__class__, b.__class__
-        if ca is P or cb is P or ca is FnPtr or cb is FnPtr:
+        if ca is P or cb is P or ca is FnPtr or cb is FnPtr or ca is Lin or cb is Lin:
             return s.ptr_binop(op, bits, a, b)
         if ca is Undef or cb is Undef:
-            if op in ('and',) and ((ca is int and a == 0) or (cb is int and b == 0)): return 0
+            if op == 'and' and ((ca is int and a == 0) or (cb is int and b == 0)): return 0
+            if op == 'or' and ((ca is int and a == (1 << bits) - 1) or (cb is int and b == (1 << bits) - 1)): return (1 << bits) - 1
             return Undef(bits)
         if ca is int and cb is int:
             if op == 'add':
@@ -686,6 +693,12 @@ class Engine:
 
     def ptr_binop(s, op, bits, a, b):
         ca, cb = a.__class__, b.__class__
+        if (ca is Lin or cb is Lin) and op in ('add', 'sub') and bits == 64:
+            la, lb = to_lin(a), to_lin(b)
+            if la is None or lb is None: raise Bug('ptrint', 'unsupported operand in pointer arithmetic (%r, %r)' % (a, b))
+            co = dict(la[0]); sg = 1 if op == 'add' else -1
+            for k, v in lb[0].items(): co[k] = co.get(k, 0) + sg * v
+            return from_lin(co, (la[1] + lb[1]) if op == 'add' else (la[1] - lb[1]))
         if ca is P and a.obj == 0 and a.off.__class__ is int and cb is not P: return s.binop(None, op, False, bits, a.off, b)
         if cb is P and b.obj == 0 and b.off.__class__ is int and ca is not P: return s.binop(None, op, False, bits, a, b.off)
         if op == 'sub' and ca is P and cb is P:
@@ -710,6 +723,16 @@ class Engine:
             return s.binop(None, op, False, bits, a.off, b.off) if a.off.__class__ is int and b.off.__class__ is int else simp(bv(a.off, 64) ^ bv(b.off, 64))
         if op == 'xor' and ca is P and cb is P:
             return 1  # distinct objects: nonzero
+        if op == 'xor' and bits == 64 and ((cb is int and b == (1 << 64) - 1) or (ca is int and a == (1 << 64) - 1)):
+            la = to_lin(a if cb is int else b)      # ~x == -x - 1
+            if la is not None: return from_lin({k: -v for k, v in la[0].items()}, (-la[1] - 1))
+        if op in ('add', 'sub') and bits == 64:
+            la, lb = to_lin(a), to_lin(b)
+            if la is not None and lb is not None:
+                co = dict(la[0]); sg = 1 if op == 'add' else -1
+                for k, v in lb[0].items(): co[k] = co.get(k, 0) + sg * v
+                off = (la[1] + lb[1]) if op == 'add' else (la[1] - lb[1])
+                return from_lin(co, off)
         raise Bug('ptrint', 'unsupported integer op %s on pointer (%r, %r)' % (op, a, b))
 
     def icmp(s, pred, bits, a, b):
@@ -737,7 +760,7 @@ class Engine:
             else:
                 a, b, bits = a.off, b.off, 64
             ca, cb = a.__class__, b.__class__
-        if ca is Undef or cb is Undef: raise Bug('undef', 'comparison on uninitialised value')
+        if ca is Undef or cb is Undef: return Undef(1)     # poison-like: only a *use* (branch, select condition, environment) is an error
         if ca is int and cb is int:
             if pred == 'eq': return int(a == b)
             if pred == 'ne': return int(a != b)
@@ -1385,6 +1408,25 @@ class Engine:
             sm = z3.BitVecVal(1 << (bits - 1), bits)
             return simp((bv(args[0], bits) & ~sm) | (bv(args[1], bits) & sm))
         raise Inconclusive('unsupported', 'symbolic fp intrinsic ' + base)
+
+class Lin:
+    """integer value that is a linear combination of object base addresses plus an offset (arises when the optimiser
+    reassociates sums of pointer differences); becomes an ordinary value again as soon as the bases cancel"""
+    __slots__ = ('co', 'off')
+    def __init__(s, co, off): s.co, s.off = co, off
+    def __repr__(s): return 'Lin(%r,%r)' % (s.co, s.off)
+def to_lin(v):
+    c = v.__class__
+    if c is P: return ({v.obj: 1} if v.obj else {}), v.off
+    if c is Lin: return dict(v.co), v.off
+    if c is int or isinstance(v, BitVecRef): return {}, v
+    return None
+def from_lin(co, off):
+    co = {k: v for k, v in co.items() if v % (1 << 64)}
+    off = simp(off) if is_sym(off) else mask(off, 64)
+    if not co: return off
+    if len(co) == 1 and list(co.values())[0] == 1: return P(list(co)[0], off)
+    return Lin(co, off)
 
 class _Forked: pass
 FORKED = _Forked()
